@@ -50,16 +50,16 @@ theorem versionOf_nat (v : Nat) : versionOf (v : Int) = some v := by
   have h2 : ((v : Int) == -1) = false := by simp <;> omega
   simp [h1, h2]
 
-theorem changesetOf_nat (c : Nat) (h : c < 2 ^ 32 - 1) : changesetOf (c : Int) = some c := by
+theorem changesetOf_nat (c : Nat) (h : c < 2 ^ 32) : changesetOf (c : Int) = some c := by
   unfold changesetOf
   simp only [Nat.reducePow, Int.reducePow] at *
   have h1 : ¬ ((c : Int) < -1) := by omega
-  have h2 : ¬ ((c : Int) ≥ 4294967296 - 1) := by omega
+  have h2 : ¬ ((c : Int) > 4294967296 - 1) := by omega
   have h3 : ((c : Int) == -1) = false := by simp <;> omega
   simp [h1, h3]; omega
 
-/-- the boundary the reader refuses although it is a valid uint32 changeset id -/
-theorem changesetOf_uint32_max : changesetOf (toInt64 (u64 (4294967295 : Nat))) = none := by
+/-- since fix 04636d9 the largest uint32 changeset id is accepted -/
+theorem changesetOf_uint32_max : changesetOf (toInt64 (u64 (4294967295 : Int))) = some 4294967295 := by
   decide
 
 theorem uidOf_nat (u : Nat) : uidOf (u : Int) = u := by
